@@ -143,6 +143,43 @@ func c16EncodeBatch(c *work.Ctx, it intType, batch []*big.Int) {
 		}
 		c.Count("values_encoded", 1)
 	}
+	// the colour interpreters have number writers of their own: with a scheme that marks nothing (and one that
+	// marks only signed integers) the text of every value, as a map key and under the string tag too, is the same
+	{
+		type holder struct {
+			V interface{}            `json:"v"`
+			M map[string]interface{} `json:"m"`
+		}
+		onlyInt := &json.ColorScheme{Int: json.ColorFormat{Header: "<i>", Footer: "</i>"}}
+		strip := strings.NewReplacer("<i>", "", "</i>", "")
+		for _, x := range batch {
+			v := reflect.New(it.t).Elem()
+			setInt(v, x)
+			mk := reflect.MakeMap(reflect.MapOf(it.t, it.t))
+			mk.SetMapIndex(v, v)
+			st := reflect.New(reflect.StructOf([]reflect.StructField{{Name: "S", Type: it.t, Tag: `json:"s,string"`}})).Elem()
+			setInt(st.Field(0), x)
+			val := holder{V: v.Interface(), M: map[string]interface{}{"k": mk.Interface(), "s": st.Interface(), "l": []interface{}{v.Interface()}}}
+			want := fmt.Sprintf(`{"v":%s,"m":{"k":{"%s":%s},"l":[%s],"s":{"s":"%s"}}}`, x, x, x, x, x)
+			for _, sc := range []struct {
+				name string
+				s    *json.ColorScheme
+			}{{"empty scheme", &json.ColorScheme{}}, {"scheme marking signed integers only", onlyInt}} {
+				out, err := json.MarshalWithOption(val, json.Colorize(sc.s))
+				if got := strip.Replace(string(out)); err != nil || got != want {
+					report("Colorize("+sc.name+")", x, fmt.Sprintf("%q err=%v, want %s", clip(out), err, want))
+				}
+				out, err = json.MarshalIndentWithOption(val, "", "", json.Colorize(sc.s))
+				var cb bytes.Buffer
+				if err == nil {
+					err = stdjson.Compact(&cb, []byte(strip.Replace(string(out))))
+				}
+				if err != nil || cb.String() != want {
+					report("Colorize("+sc.name+")+indent", x, fmt.Sprintf("%q err=%v, want %s", clip(out), err, want))
+				}
+			}
+		}
+	}
 	// slice ([]uint8 is base64 text by definition: use an array there)
 	sl := reflect.MakeSlice(reflect.SliceOf(it.t), n, n)
 	if it.t.Kind() == reflect.Uint8 {
